@@ -23,7 +23,7 @@ func init() {
 //
 //verif:harness C11.find_nodes_reply unwind=60 timeout=60
 //verif:use tableenv
-//verif:param K=1/3 D=2/3
+//verif:param K=1/2 D=2/2
 func vhC11FindNodesReply() {
 	vhEnrBytes = map[*enr.Record][]byte{}
 	vhTableNodes = nil
